@@ -85,8 +85,9 @@ VARIABLES st,       \* Slots -> "none" | "running" | "paused"
           hist
 
 vars == <<st, dotted, touched, orphan, resp, pstate, probes, after, hist>>
-\* (the last step stays visible: InvalidRejected reads it)
-view == <<st, dotted, touched, orphan, resp, pstate, probes, after, Len(hist), IF hist = <<>> THEN <<>> ELSE <<hist[Len(hist)]>> >>
+\* (what InvalidRejected reads of the last step stays visible)
+view == <<st, dotted, touched, orphan, resp, pstate, probes, after, Len(hist),
+          hist # <<>> /\ (hist[Len(hist)].op \in MustReject \/ hist[Len(hist)].addr = "empty")>>
 State == <<st, dotted, touched, orphan>>
 
 Init == /\ st = [s \in Slots |-> "none"] /\ dotted = [s \in Slots |-> FALSE]
